@@ -423,6 +423,25 @@ func runC15(c *Ctx, w *World, r *Report) {
 						if _, f, ok := asFieldLoad(cl.Common().Args[0]); ok && f == "Words" {
 							lenL = linAtom(atom)
 							found = true
+						} else if containerRole(cl.Common().Args[0]) == ".Words" && stripConv(cl.Common().Args[0]) == stripConv(ia.X) {
+							// the field grown through a local copy of its slice header (words := tb.Words; grow; tb.Words =
+							// words): the length compared is that of the very value stored into
+							lenL = linAtom(atom)
+							found = true
+							// ... and that copy is what the field holds when the bit goes in (else a re-allocating append
+							// leaves the bit in a slice nobody keeps)
+							back := false
+							eachInstr(fn, func(i2 ssa.Instruction) {
+								if st, ok := i2.(*ssa.Store); ok {
+									if fad, ok := st.Addr.(*ssa.FieldAddr); ok && fieldName(fad) == "Words" && stripConv(st.Val) == stripConv(ia.X) &&
+										(st.Block() == ia.Block() || st.Block().Dominates(ia.Block())) {
+										back = true
+									}
+								}
+							})
+							if !back {
+								found = false
+							}
 						}
 					}
 				}
